@@ -24,7 +24,7 @@ for p in props:
         na.append({"property_id": pid, "reason": "no check built yet in this round (planned: bounded-exhaustive lock-step exploration, DESIGN.md section 3)"})
 m = {
     "version": 1,
-    "setup_cmd": "cd /verif/mc && CARGO_NET_OFFLINE=true CARGO_TARGET_DIR=/verif/target cargo build --release --offline --bins",
+    "setup_cmd": "/verif/check --build",
     "hooks": {
         "guard": "cgmath_verif",
         "enable": "no hooks are needed: the harness links /repo's working tree as a cargo path dependency (features swizzle, serde, mint) and uses only its public API",
